@@ -254,7 +254,9 @@ function judgeSlots(t, v, viol, path) {
 function judge(c, resps) {
   const r = resps[0];
   if (r.parse_error) return { engineError: 'generated case does not parse: ' + r.parse_error };
-  if (r.panic || r.died || r.hang || !r.eval_js) return { skip: true };
+  // a well-formed input of this space for which the transform panics or kills its process has no output that could satisfy the property
+  if (r.panic || r.died) return { viol: [{ clause: 'transform-failed', diff: r.panic ? 'panic' : 'process-died', msg: r.panic ? `panic in ${r.panic.stage}: ${r.panic.msg}` : 'the transform killed its process' }], obs: 'transform-failed' };
+  if (r.hang || !r.eval_js) return { skip: true };
   const env = E.makeEnv();
   const viol = [];
   let obs;
